@@ -104,6 +104,7 @@ var (
 	histRounds = map[string]int{} // rounds between the synchrony point and the last decision
 	histSlack  = map[string]int{} // bound - decision round
 	histEnd    = map[string]int{}
+	counted    = map[string]bool{}
 )
 
 func oracle(c core.Case, out []string) []core.Finding {
@@ -189,7 +190,7 @@ func oracle(c core.Case, out []string) []core.Finding {
 					// the bound of termination_partial: the first round after the highest round a
 					// correct node is in whose proposer is correct and, if correct nodes are locked,
 					// is one of them (it re-proposes the locked block with its POL round)
-					R1 := 0
+					R1 := syncR
 					locked := map[int]bool{}
 					for id, v := range views {
 						if v.decided == "" && !v.halted {
@@ -243,19 +244,27 @@ func oracle(c core.Case, out []string) []core.Finding {
 	}
 	statMtx.Lock()
 	defer statMtx.Unlock()
+	// histograms count every case once (the runner calls the oracle again while shrinking)
+	count := !counted[c.ID]
+	counted[c.ID] = true
+	bump := func(m map[string]int, k string) {
+		if count {
+			m[k]++
+		}
+	}
 	switch {
 	case undecided == 0:
-		histEnd["all-decided"]++
-		histRounds[strconv.Itoa(max(0, lastDecision-syncR))]++
+		bump(histEnd, "all-decided")
+		bump(histRounds, strconv.Itoa(max(0, lastDecision-syncR)))
 		if bound >= 0 {
-			histSlack[strconv.Itoa(bound-lastDecision)]++
+			bump(histSlack, strconv.Itoa(bound-lastDecision))
 			if lastDecision > bound {
 				add("sync.decision-later-than-bound",
 					fmt.Sprintf("all messages delivered from round %d on, but the last correct node decided in round %d, later than round %d (first round whose proposer is correct and holds the lock)", syncR, lastDecision, bound))
 			}
 		}
 	case closed && noTimer:
-		histEnd["stuck"]++
+		bump(histEnd, "stuck")
 		// who is stuck, and in which state
 		var desc []string
 		class := "other"
@@ -273,7 +282,7 @@ func oracle(c core.Case, out []string) []core.Finding {
 		add("sync.correct-node-never-decides."+class,
 			fmt.Sprintf("every message is delivered and no timeout is pending, yet %d correct node(s) have not decided (%s); decided: %s", undecided, strings.Join(desc, "; "), strings.Join(dec, ",")))
 	default:
-		histEnd["inconclusive"]++
+		bump(histEnd, "inconclusive")
 		if bound >= 0 && endR > bound+1 {
 			add("sync.decision-later-than-bound",
 				fmt.Sprintf("all messages delivered from round %d on, correct nodes reached round %d without all deciding; bound was round %d", syncR, endR, bound))
